@@ -262,7 +262,7 @@ pub fn run(ctx: &Ctx) -> i32 {
         let base = gen::d1(&fmt);
         let all = d1_coords(&fmt, true);
         // reduced coordinate set: one representative of each field kind
-        let keep = ["canvas.width", "frame[1].duration", "layer[1].flags", "layer[2].name", "layers.levels", "tag[0].from", "tag[1].to", "tag[2].name", "slice[0].flags", "slice[0].key[1].x", "slice[0].key[2].cw", "palette.first", "palette[1].name", "palette[3].flags", "extfile[0].id", "tileset[0].id", "tileset[1].base_index", "cel[1].x"];
+        let keep = ["canvas.width", "canvas.height", "frame[1].duration", "layer[0].flags", "layer[1].flags", "layer[1].opacity", "layer[2].name", "layer[3].blend", "layers.levels", "tag[0].from", "tag[1].to", "tag[1].dir", "tag[2].name", "tag[2].repeat", "slice[0].flags", "slice[1].name", "slice[0].key[0].frame", "slice[0].key[1].x", "slice[0].key[2].cw", "slice[0].key[2].py", "palette.first", "palette[0].rgba[3]", "palette[1].name", "palette[3].flags", "extfile[0].id", "extfile[1].name", "tileset[0].id", "tileset[1].id", "tileset[1].base_index", "tileset[1].ext_file", "cel[0].y", "cel[1].x"];
         let coords: Vec<&Coord> = all.iter().filter(|c| keep.contains(&c.name.as_str())).collect();
         let dims: Vec<usize> = coords.iter().map(|c| c.n).collect();
         let vecs = ball_vec(&dims, 3);
